@@ -31,7 +31,7 @@ RECURSIVE ApplyAll(_, _)
 ApplyAll(G, s) == IF s = <<>> THEN G ELSE ApplyAll(Apply(G, s[1]), Tail(s))
 
 Writes == {"add", "addN", "remove", "remove_graph", "add_graph", "update"}
-Reads == {"triples", "len", "contains", "contexts", "query"}
+Reads == {"triples", "len", "contains", "contexts", "contexts_of", "query"}
 Flushes(cf) == ~cf.autocommit /\ ~cf.dirty_reads
 Next(cf, s, e) ==
   IF e.op \in Writes THEN (IF cf.autocommit THEN [s EXCEPT !.E = Apply(s.E, e)] ELSE [s EXCEPT !.queue = Append(s.queue, e)])
@@ -46,10 +46,12 @@ Expected(E, e) ==
     [] e.op = "len" -> Cardinality(GGet(E, e.g))
     [] e.op = "contains" -> e.t \in GGet(E, e.g)
     [] e.op = "contexts" -> {n \in DOMAIN E \ {DEFAULT} : E[n] # {}}
+    [] e.op = "contexts_of" -> {n \in DOMAIN E \ {DEFAULT} : e.t \in E[n]}        \* the named graphs that hold this very triple
 ReadOK(E, e) ==
   CASE e.op \in {"triples", "query"} -> SeqToSet(e.result) = Expected(E, e) /\ NoDup(e.result)
     [] e.op = "len" -> e.result = Expected(E, e)
     [] e.op = "contains" -> e.result = Expected(E, e)
+    [] e.op = "contexts_of" -> SeqToSet(e.result) = Expected(E, e)
     [] e.op = "contexts" -> Expected(E, e) \subseteq SeqToSet(e.result) /\ SeqToSet(e.result) = SeqToSet(e.endpoint_graphs) \ {DEFAULT}
 Clause(cf, e) == IF e.op \in Writes THEN (IF cf.autocommit THEN "EndpointMirrors:" \o e.op ELSE "WriteWaitsForCommit:" \o e.op)
                  ELSE IF e.op = "commit" THEN "CommitInOrder"
